@@ -17,19 +17,17 @@ Fixpoint tr_filters (d : dname) (es : list expr) : option (list qx) :=
   | e :: r => match tr_filter d e, tr_filters d r with Some c, Some cs => Some (c ++ cs) | _, _ => None end
   end.
 
-(* WHERE and HAVING as the translator fills them.  The `if` items in hs are those that mention the count.  The loop over the ifs of
-   SQLTranslator.init sends a condition to HAVING when its monad is marked `aggregated`; an item that is an integer *value* (tested
-   for truth: `if len(g.members)`, `if coalesce(g.level, len(g.members))`) is turned into a condition by NumericMixin.nonzero,
-   which does not carry the mark over - such an item stays in WHERE (StringMixin.nonzero does carry it over; a bool value is used
-   as it is) *)
-Definition loses_mark (e : expr) : bool := match ty_of e with Some (TV TInt) => true | _ => false end.
+(* WHERE and HAVING as the translator fills them: the loop over the ifs of SQLTranslator.init sends a condition to HAVING when its
+   monad is marked `aggregated`, i.e. when it mentions the aggregate (since repo commit 809623a NumericMixin.nonzero / negate carry
+   the mark over like StringMixin's; before, `if len(g.members)` put COUNT(..) <> 0 into WHERE and the database rejected it).
+   ws: the `if` items that do not mention the count, hs: those that do. *)
 Definition tr_len_raw (d : dname) (ws hs : list expr) : option (list qx * list qx) :=
-  match tr_filters d ws, tr_filters d (filter loses_mark hs), tr_filters d (filter (fun e => negb (loses_mark e)) hs) with
-  | Some w, Some w2, Some h => Some (w ++ w2, h)
-  | _, _, _ => None
+  match tr_filters d ws, tr_filters d hs with
+  | Some w, Some h => Some (w, h)
+  | _, _ => None
   end.
 
-(* a statement with an aggregate in WHERE is rejected by every database ("misuse of aggregate") *)
+(* a statement with an aggregate in WHERE would be rejected by every database ("misuse of aggregate") *)
 Definition valid_len (wh : list qx * list qx) : bool :=
   forallb (fun q => negb (mentions cnt_col q)) (fst wh) && forallb (mentions cnt_col) (snd wh) && negb (match snd wh with [] => true | _ => false end).
 
